@@ -37,8 +37,9 @@ SOURCES = [
 OP_NAMES = {"init": "INIT", "noOp": "NO_OP", "from_": "FROM", "wher": "WHERE", "groupBy": "GROUP_BY", "having": "HAVING", "select": "SELECT", "orderBy": "ORDER_BY", "limit": "LIMIT"}
 FNS = ["countStar", "count", "sum", "avg", "min", "max", "countDistinct"]
 SHORTCUTS = ["sum", "avg", "mean", "min", "max"]
-INT_NAMES = ["k", "g", "x", "y", "u", "v"]
-STR_NAMES = ["s", "w"]
+INT_NAMES = ["k", "g", "x", "y", "u", "v", "Amt", "qV"]
+STR_NAMES = ["s", "w", "Tag"]
+KEY_COLS = ("k", "g", "Dept", "storeId")
 KEY_INTS = [None, None, 0, 1, 1, 2]
 VAL_INTS = [None, None, 0, 1, 2, 3, -1, 5]
 KEY_STRS = [None, "a", "a", "b"]
@@ -63,6 +64,9 @@ def gen_table(rng: random.Random) -> t.Tuple[Schema, t.List[list]]:
             [("k", "int"), ("g", "int"), ("x", "int")],
             [("k", "int"), ("x", "int"), ("y", "int"), ("s", "str")],
             [("s", "str"), ("x", "int")],
+            # case-preserving names: the spelling of a column must survive into fn(col)
+            [("Dept", "int"), ("Amount", "int"), ("s", "str")],
+            [("storeId", "int"), ("Amount", "int"), ("Qty", "int"), ("Tag", "str")],
         ]
     )
     n = rng.choice([0, 1, 2, 3, 4, 5, 6, 7])
@@ -74,14 +78,14 @@ def gen_table(rng: random.Random) -> t.Tuple[Schema, t.List[list]]:
             continue
         row = []
         for c, ty in schema:
-            if c in ("k", "g"):
+            if c in KEY_COLS:
                 row.append(rng.choice(KEY_INTS))
             elif ty == "str":
                 row.append(rng.choice(KEY_STRS))
             else:
                 row.append(rng.choice(VAL_INTS))
         if allnull_key and row[0] in (None, 1):
-            row = [row[0]] + [None if c not in ("k", "g") else v for (c, _), v in list(zip(schema, row))[1:]]
+            row = [row[0]] + [None if c not in KEY_COLS else v for (c, _), v in list(zip(schema, row))[1:]]
         rows.append(row)
     return schema, rows
 
@@ -217,7 +221,13 @@ def gen_group(rng: random.Random, schema: Schema, stats: dict) -> t.Tuple[dict, 
         m = rng.choice(SHORTCUTS)
         cols = rng.sample(ints, rng.randint(1, min(2, len(ints))))
         fn = "avg" if m == "mean" else m
-        return {"k": "shortcut", "keys": kj, "m": m, "cols": cols}, kschema + [(f"{fn}({c})", "opaque") for c in cols]
+        step = {"k": "shortcut", "keys": kj, "m": m, "cols": cols}
+        if m != "mean" and rng.random() < 0.3:
+            # dict form with one entry (the order of several entries is hash order in PySpark): agg({col: FN})
+            step["cols"] = cols[:1]
+            step["dict"] = rng.choice([m, m.upper(), m.capitalize()])
+            stats["ops"]["dict"] = stats["ops"].get("dict", 0) + 1
+        return step, kschema + [(f"{fn}({c})", "opaque") for c in step["cols"]]
     aggs = gen_aggs(rng, schema, [n for n, _ in kschema])
     for _, e, _ in aggs:
         for f in agg_fns(e):
@@ -244,6 +254,17 @@ def gen_case(rng: random.Random, stats: dict) -> dict:
         else:
             s, schema = gen_select(rng, schema)
             steps.append(s)
+    if rng.random() < 0.3:
+        # the same DataFrame object first serves another grouped report (mostly a cube), then is used again
+        tmp_stats: t.Dict[str, t.Any] = {"ops": {}, "fns": {}, "key_styles": {}, "post": {"where": 0, "select": 0, "group": 0}}
+        for _try in range(6):
+            side, _ = gen_group(rng, schema, tmp_stats)
+            if side["k"] == "cube" or rng.random() < 0.25:
+                break
+        steps.append({"k": "side", "op": side, "collect": rng.random() < 0.5})
+        stats["side_calls"] = stats.get("side_calls", 0) + 1
+        if rng.random() < 0.15:
+            return {"schema": [list(x) for x in base_schema], "rows": rows, "steps": steps}  # then just collect the receiver
     s, schema = gen_group(rng, schema, stats)
     steps.append(s)
     for _ in range(rng.choice([0, 1, 1, 2])):
@@ -307,7 +328,8 @@ def step_to_lean(s: dict) -> t.Any:
 
 
 def case_to_lean(i: int, c: dict) -> dict:
-    return {"case": i, "table": X.table_to_lean([n for n, _ in c["schema"]], c["rows"]), "steps": [step_to_lean(s) for s in c["steps"]]}
+    # a side call (grouped call whose result is discarded) is the identity on the receiver in PySpark and in the model
+    return {"case": i, "table": X.table_to_lean([n for n, _ in c["schema"]], c["rows"]), "steps": [step_to_lean(s) for s in c["steps"] if s["k"] != "side"]}
 
 
 def show_aexpr(e: t.Any) -> str:
@@ -344,6 +366,10 @@ def show_step(s: dict) -> str:
     aggs = ", ".join(f"{show_aexpr(e)}.alias({n!r})" for n, e in s.get("aggs", []))
     if k == "groupAgg":
         return f"groupBy({show_keys(s['keys'])}).agg({aggs})"
+    if k == "side":
+        return f"[side call, result discarded: {show_step(s['op'])}{'.collect()' if s.get('collect') else ''}]"
+    if k == "shortcut" and s.get("dict"):
+        return f"groupBy({show_keys(s['keys'])}).agg({{{s['cols'][0]!r}: {s['dict']!r}}})"
     if k == "shortcut":
         return f"groupBy({show_keys(s['keys'])}).{s['m']}({', '.join(map(repr, s['cols']))})"
     if k == "count":
@@ -411,6 +437,14 @@ def apply_step(df: t.Any, s: dict, F: t.Any) -> t.Any:
     aggs = [to_agg_column(e, F).alias(n) for n, e in s.get("aggs", [])]
     if k == "groupAgg":
         return df.groupBy(*key_columns(s["keys"], F)).agg(*aggs)
+    if k == "side":
+        # a grouped call whose result is discarded: DataFrames are immutable, the receiver must be unaffected
+        tmp = apply_step(df, s["op"], F)
+        if s.get("collect"):
+            tmp.collect()
+        return df
+    if k == "shortcut" and s.get("dict"):
+        return df.groupBy(*key_columns(s["keys"], F)).agg({s["cols"][0]: s["dict"]})
     if k == "shortcut":
         return getattr(df.groupBy(*key_columns(s["keys"], F)), s["m"])(*s["cols"])
     if k == "count":
@@ -614,6 +648,29 @@ def hand_cases() -> t.List[dict]:
     out.append({"schema": sch, "rows": rows, "steps": [{"k": "groupAgg", "keys": K, "aggs": [["t", ("agg", "sum", ("col", "x"))]]}, {"k": "where", "p": ("bin", "gt", ("col", "t"), ("lit", 2))}]})
     out.append({"schema": sch, "rows": rows, "steps": [{"k": "where", "p": ("bin", "gt", ("col", "x"), ("lit", 2))}, {"k": "groupAgg", "keys": K, "aggs": [cnt]}]})
     out.append({"schema": sch, "rows": rows, "steps": [{"k": "groupAgg", "keys": [["k", ("col", "k"), "name"], ["s", ("col", "s"), "name"]], "aggs": [cnt]}, {"k": "groupAgg", "keys": K, "aggs": [["t", ("agg", "sum", ("col", "c"))], ["n", ("agg", "countStar", ("lit", 1))]]}]})
+    # reuse of the receiver after a grouped call (receiver's last operation: where / none / select)
+    W = {"k": "where", "p": ("not", ("isNull", ("col", "x")))}
+    cube_cnt = {"k": "cube", "keys": K, "aggs": [["count", ("agg", "countStar", ("lit", 1))]], "via_count": True}
+    cube_sum = {"k": "cube", "keys": K, "aggs": [["t", ("agg", "sum", ("col", "x"))]]}
+    for pre in ([W], [], [{"k": "select", "items": [["k", ("col", "k")], ["x", ("col", "x")]]}]):
+        for side in (cube_cnt, cube_sum, {"k": "groupAgg", "keys": K, "aggs": [cnt]}):
+            for coll in (True, False):
+                sd = {"k": "side", "op": side, "collect": coll}
+                out.append({"schema": sch, "rows": rows, "steps": pre + [sd, {"k": "dfAgg", "aggs": [["t", ("agg", "sum", ("col", "x"))], cnt]}]})
+                out.append({"schema": sch, "rows": rows, "steps": pre + [sd, {"k": "count", "keys": []}]})
+                out.append({"schema": sch, "rows": rows, "steps": pre + [sd, {"k": "groupAgg", "keys": K, "aggs": [["t", ("agg", "sum", ("col", "x"))]]}]})
+                out.append({"schema": sch, "rows": rows, "steps": pre + [sd]})
+    # case-preserving column names through every shortcut and the dict form
+    csch = [["Dept", "int"], ["Amount", "int"], ["b", "str"]]
+    crows = [[1, 10, "x"], [1, None, "y"], [None, 5, "x"], [2, 7, "y"]]
+    DK = [["Dept", ("col", "Dept"), "name"]]
+    for m in SHORTCUTS:
+        out.append({"schema": csch, "rows": crows, "steps": [{"k": "shortcut", "keys": DK, "m": m, "cols": ["Amount"]}]})
+        out.append({"schema": csch, "rows": crows, "steps": [{"k": "shortcut", "keys": [], "m": m, "cols": ["Amount", "Dept"]}]})
+        if m != "mean":
+            out.append({"schema": csch, "rows": crows, "steps": [{"k": "shortcut", "keys": DK, "m": m, "cols": ["Amount"], "dict": m.upper()}]})
+    out.append({"schema": csch, "rows": crows, "steps": [{"k": "count", "keys": DK}]})
+    out.append({"schema": csch, "rows": crows, "steps": [{"k": "groupAgg", "keys": DK, "aggs": [["Total", ("agg", "sum", ("col", "Amount"))]]}]})
     for c in out:
         c["origin"] = "hand"
     return out
@@ -740,7 +797,7 @@ def run(ctx: Ctx) -> None:
             "distinct_nontrivial": len(nontrivial),
             "rule": "corpus, then fixed cases (every aggregate function, every shortcut, count, DataFrame.agg, cube, expression key; each on a "
             "table with NULL keys / all-NULL groups / duplicates and on the empty table; aggregation after select, before where, re-aggregation), "
-            "then random chains [where|select]{0,2} · grouping op · [where|select|grouping op]{0,2} with key sets names / F.col / aliased "
+            "then random chains [where|select]{0,2} · [discarded grouped call on the same object]? · grouping op · [where|select|grouping op]{0,2} with key sets names / F.col / aliased "
             "expressions / empty; non-trivial = distinct (steps, rows) whose implementation result is non-empty",
             "traces_validated_against_impl": sum(r["impl_eq_model"] for r in res),
             "impl_vs_spec_agree": sum(r["impl_eq_spec"] for r in res),
@@ -752,6 +809,8 @@ def run(ctx: Ctx) -> None:
             "steps_after_aggregation": stats["post"],
             "chain_length_histogram": lens,
             "cases_on_empty_table": n_empty,
+            "cases_reusing_the_receiver_after_a_grouped_call": sum(1 for r in res if any(s["k"] == "side" for s in r["case"]["steps"])),
+            "cases_with_capitalised_column_names": sum(1 for r in res if any(n != n.lower() for n, _ in r["case"]["schema"])),
             "results_with_null_aggregates": n_allnull,
             "samples": [{"program": show_case(r["case"]), "result": r["impl"]} for r in res[:: max(1, len(res) // 4)][:4]],
             **gen_cov,
